@@ -37,13 +37,16 @@ func c15Scenarios() []c15Scenario {
 		// names whose earliest use is in the included files (same date in both) and case twins of their names
 		"\n2001-04-01 cafe  ; mood:z, Mood:x\n    Expenses:Food  1 eur\n    Assets:Bank\n" +
 		// a tag whose values come from both included files, about to get a value
-		"\n2001-04-02 x\n    ; trip:\n"
+		"\n2001-04-02 x\n    ; trip:\n" +
+		// an account prefix in a spelling that occurs nowhere (the case-insensitive fallback answers)
+		"    ASSETS:\n"
 	reqs := func(doc string, typingLine int) []wire.Msg {
 		return []wire.Msg{
 			{Op: "completion", Doc: doc, Line: typingLine, Char: 4},      // account, empty fragment
 			{Op: "completion", Doc: doc, Line: typingLine - 1, Char: 11}, // payee, empty fragment
 			{Op: "completion", Doc: doc, Line: typingLine - 1, Char: 12}, // payee, one letter
 			{Op: "completion", Doc: doc, Line: typingLine + 7, Char: 11}, // tag value, empty fragment
+			{Op: "completion", Doc: doc, Line: typingLine + 8, Char: 11}, // account prefix in a third spelling
 			{Op: "completion", Doc: doc, Line: typingLine + 2, Char: 20}, // tag name inside a header comment
 			{Op: "references", Doc: doc, Line: 4, Char: 8},
 			{Op: "symbols", Doc: doc},
